@@ -16,6 +16,9 @@ DELIMS = {
     "asp": ("<%", "%>", "<%=", "%>", "<%#", "#%>", None, None),
     # end strings that do not start with an operator character, with line statements
     "phpline": ("<?", "?>", "<?=", "?>", "<!--", "-->", "%", "%%"),
+    # end strings that ARE closing brackets (the LaTeX-friendly set of the documentation; a parenthesis set)
+    "latex": ("\\BLOCK{", "}", "\\VAR{", "}", "\\#{", "}", "%%", "%#"),
+    "paren": ("(%", ")", "((", "))", "(#", "#)", None, None),
     "line": ("{%", "%}", "{{", "}}", "{#", "#}", "#", "##"),
     "linepct": ("<%", "%>", "${", "}", "<%#", "%>", "%", "%%"),
 }
